@@ -28,7 +28,10 @@ class World:
         hooks.update({
             'Loop::runNext': self.h_run_next, 'Loop::runInLoop': self.h_run_next, 'Loop::run': self.h_run_next, 'Loop::cancel': self.h_cancel, 'Loop::newTimerEvent': self.h_new_timer,
             'bind': lambda it, f, st, a: ('bind', a[0], list(a[1:])), 'move': lambda it, f, st, a: a[0], 'forward': lambda it, f, st, a: a[0],
-            'LogPrintfFunc': noop, 'ToString': noop, 'c_str': lambda it, f, st, a: it.cur_obj, 'operator+': noop, 'operator+=': noop, 'abort': self.h_abort,
+            'LogPrintfFunc': noop, 'ToString': noop, 'c_str': lambda it, f, st, a: it.cur_obj, 'abort': self.h_abort,
+            'operator+': lambda it, f, st, a: (([it.cur_obj] if isinstance(it.cur_obj, int) else []) + [x for x in a if isinstance(x, int)]) and sum(([it.cur_obj] if isinstance(it.cur_obj, int) else []) + [x for x in a if isinstance(x, int)]) if all(isinstance(x, int) for x in a) and a else None,
+            'max': lambda it, f, st, a: max(a[0], a[1]) if len(a) == 2 and all(isinstance(x, int) for x in a) else None,
+            'min': lambda it, f, st, a: min(a[0], a[1]) if len(a) == 2 and all(isinstance(x, int) for x in a) else None,
             'Variables::setParent': noop, 'now': lambda it, f, st, a: self.now,
         })
         for c in ('TimerEvent', 'Event'):
